@@ -43,6 +43,8 @@ type C06Op struct {
 
 type C06Plan struct {
 	Mode     string    `json:"mode"` // api (WithFence on the business transaction) | driver (seata fence driver)
+	// SharedCtx: the tries of one global transaction that run alone share a context
+	SharedCtx bool `json:"shared_ctx,omitempty"`
 	Branches int       `json:"branches"`
 	SameXid  bool      `json:"same_xid"`
 	Steps    []C06Step `json:"steps"`
@@ -53,6 +55,7 @@ type C06Plan struct {
 func genC06Plan(seed uint64, tier string, mode string) *C06Plan {
 	g := simkit.NewGen(seed)
 	p := &C06Plan{Mode: mode, Branches: g.Range(1, 3), SameXid: g.Bool()}
+	p.SharedCtx = p.SameXid && g.Bool()
 	n := g.Range(2, 6)
 	if tier == "thorough" {
 		n = g.Range(2, 9)
@@ -80,6 +83,14 @@ func genC06Plan(seed uint64, tier string, mode string) *C06Plan {
 			p.Faults = append(p.Faults, DBFault{Class: cl, Nth: g.Range(1, n+1), Kind: kind, Num: 1205})
 		}
 	}
+	if g.Prob(0.12) {
+		// steered: two tries of one global transaction, one after the other on
+		// the caller's context, the first one losing its business COMMIT
+		p.Branches, p.SameXid, p.SharedCtx = 2+g.Intn(2), true, true
+		first := []C06Step{{Ops: []C06Op{{Branch: 0, Phase: "prepare"}}}, {Ops: []C06Op{{Branch: 1, Phase: "prepare"}}}}
+		p.Steps = append(first, p.Steps...)
+		p.Faults = []DBFault{{Class: "commit", Nth: 1, Kind: simkit.Pick(g, []string{"error", "badconn"}), Num: 1205}}
+	}
 	return p
 }
 
@@ -93,6 +104,7 @@ type c06Rec struct {
 	applied  bool // its effect row is committed
 	faulted  bool
 	raced    bool
+	alone    bool // the only delivery of its step
 	wrote    int
 	conn0    int
 	jstart   int
@@ -261,6 +273,7 @@ func runC06(t *testing.T, seed uint64, planJSON []byte, tier string) (res *Resul
 		branchOf := func(b int) int64 { return int64(7001 + b) }
 		hook.Reset(plan.Faults)
 		var recs []*c06Rec
+		sharedCtx := map[string]context.Context{}
 		deliver := func(r *c06Rec) {
 			defer func() {
 				if p := recover(); p != nil {
@@ -271,6 +284,16 @@ func runC06(t *testing.T, seed uint64, planJSON []byte, tier string) (res *Resul
 				r.finished = true
 			}()
 			ctx := tm.InitSeataContext(context.Background())
+			if plan.SharedCtx && r.op.Phase == "prepare" && r.alone {
+				// the tries of one global transaction run on the caller's context,
+				// one after the other (TCCServiceProxy.Prepare sets the action
+				// context and the fence phase on it for each)
+				if sharedCtx[xidOf(r.op.Branch)] == nil {
+					sharedCtx[xidOf(r.op.Branch)] = ctx
+				}
+				ctx = sharedCtx[xidOf(r.op.Branch)]
+				sim.Probe("c06-try-on-shared-context")
+			}
 			tm.SetXID(ctx, xidOf(r.op.Branch))
 			tm.SetTxName(ctx, "c06")
 			switch r.op.Phase {
@@ -314,6 +337,9 @@ func runC06(t *testing.T, seed uint64, planJSON []byte, tier string) (res *Resul
 				r := &c06Rec{id: id, op: op, jstart: srv.JournalLen()}
 				recs = append(recs, r)
 				cur = append(cur, r)
+			}
+			if len(cur) == 1 {
+				cur[0].alone = true
 			}
 			if len(cur) == 2 && cur[0].op.Branch == cur[1].op.Branch {
 				cur[0].raced, cur[1].raced = true, true
@@ -410,10 +436,28 @@ func runC06(t *testing.T, seed uint64, planJSON []byte, tier string) (res *Resul
 				}
 			}
 		}
-		cls := plan.Mode
+		// a branch one of whose deliveries met an injected fault is judged under
+		// "-faults" classes (the fence driver's dual transaction is a known
+		// finding there); the other branches of the same run are not
+		runCls := plan.Mode
 		if len(plan.Faults) > 0 {
-			cls += "-faults"
+			runCls += "-faults"
 		}
+		faultedKey := map[string]bool{}
+		faultedBranch := map[int]bool{}
+		for _, r := range recs {
+			if r.faulted {
+				faultedKey[fmt.Sprintf("%v|%v", xidOf(r.op.Branch), branchOf(r.op.Branch))] = true
+				faultedBranch[r.op.Branch] = true
+			}
+		}
+		clsOf := func(faulted bool) string {
+			if faulted {
+				return plan.Mode + "-faults"
+			}
+			return plan.Mode
+		}
+		cls := runCls
 		// (2) fence status and effects agree
 		status := map[string]int{}
 		for _, row := range snap["shop.tcc_fence_log"] {
@@ -434,6 +478,7 @@ func runC06(t *testing.T, seed uint64, planJSON []byte, tier string) (res *Resul
 			}
 			st, has := status[k]
 			desc := fmt.Sprintf("branch %s: fence status %d (row present: %v), committed effects try=%d confirm=%d cancel=%d", k, st, has, e["prepare"], e["commit"], e["rollback"])
+			cls := clsOf(faultedKey[k])
 			switch {
 			case e["prepare"] > 1 || e["commit"] > 1 || e["rollback"] > 1:
 				ph := "prepare"
@@ -493,6 +538,7 @@ func runC06(t *testing.T, seed uint64, planJSON []byte, tier string) (res *Resul
 		sort.Ints(bs)
 		for _, b := range bs {
 			ops := byBranch[b]
+			cls := clsOf(faultedBranch[b])
 			r := porcupine.CheckOperationsTimeout(c06Model, ops, 20*time.Second)
 			switch r {
 			case porcupine.Illegal:
